@@ -1,2 +1,88 @@
-/- stub: line-protocol driver for C14 (to be written) -/
-def main : IO Unit := pure ()
+/- Line-protocol driver for the generated type-checker model (properties C14 and C10, expression level).
+   One request per input line, one canonical answer per output line; `harness/c14.cpp` answers the same questions by
+   calling the real TypeChecker, `checks/c14.py` converts the harness' type dumps into the Polish wire format of
+   `UtapModel.Types.parseTy` and compares.
+     bin <OP> <ty0> | <ty1>         ->  ok <type> | rej
+     un <OP> <ty0>                  ->  ok <type> | rej
+     q <OP> <ty1>                   ->  ok <type> | rej
+     iif <ty0> | <ty1> | <ty2>      ->  ok <type> | rej
+     call <paramTy> | <argTy> | <0|1 = argument is a modifiable lvalue>   ->  (ok | rej) pe=<E(arg,param)E(param,arg)E(arg,unwrapped param)E(unwrapped param,arg)>
+     eqv <tyA> | <tyB>              ->  8 bits: E(A,B) E(B,A) E(&A,B) E(A,&B) E(const A,B) E(A,const B) E(&A,&B) E(B,&A)
+     acc <ty>                       ->  g=<0|1> i=<0|1>     (accepted as guard / as invariant)  -/
+import UtapModel.Gen.TypeClauses
+open UtapModel.Types UtapModel.TypeClauses
+
+def splitBar (ws : List String) : List (List String) :=
+  ws.foldr (fun w acc => if w == "|" then [] :: acc else match acc with
+    | [] => [[w]]
+    | a :: r => (w :: a) :: r) [[]]
+
+def tyOf (ws : List String) : Option Ty :=
+  match parseTy (ws.length + 1) ws with
+  | some (t, []) => some t
+  | _ => none
+
+def showRes : Option Ty → String
+  | some t => "ok " ++ t.show
+  | none => "rej"
+
+/-- drop the leading REF / CONSTANT nodes of a parameter type (what the harness does with `get(0)`) -/
+def unwrapRC : Ty → Ty
+  | .ref t => unwrapRC t
+  | .pfx .CONSTANT t => unwrapRC t
+  | t => t
+
+def bit (b : Bool) : String := if b then "1" else "0"
+
+def stepLine (line : String) : String :=
+  let ws := (line.trimAscii.toString.splitOn " ").filter (· ≠ "")
+  match ws with
+  | "bin" :: op :: rest =>
+    match BinOp.ofName? op, (splitBar rest).map tyOf with
+    | some op, [some a, some b] => showRes (typeBin op a b)
+    | _, _ => "bad-op"
+  | "un" :: op :: rest =>
+    match UnOp.ofName? op, tyOf rest with
+    | some op, some a => showRes (typeUn op a)
+    | _, _ => "bad-op"
+  | "q" :: op :: rest =>
+    match QOp.ofName? op, tyOf rest with
+    | some op, some a => showRes (typeQuant op a)
+    | _, _ => "bad-op"
+  | "iif" :: rest =>
+    match (splitBar rest).map tyOf with
+    | [some c, some a, some b] => showRes (inlineIf c a b)
+    | _ => "bad-op"
+  | "call" :: rest =>
+    match splitBar rest with
+    | [p, a, [lv]] =>
+      match tyOf p, tyOf a with
+      | some p, some a =>
+        let u := unwrapRC p
+        (if isParameterCompatible p a (lv == "1") then "ok" else "rej") ++ " pe=" ++
+          bit (areEquivalent a p) ++ bit (areEquivalent p a) ++ bit (areEquivalent a u) ++ bit (areEquivalent u a)
+      | _, _ => "bad-op"
+    | _ => "bad-op"
+  | "eqv" :: rest =>
+    match (splitBar rest).map tyOf with
+    | [some a, some b] =>
+      let rA := Ty.ref a; let rB := Ty.ref b
+      let cA := Ty.pfx .CONSTANT a; let cB := Ty.pfx .CONSTANT b
+      String.join [bit (areEquivalent a b), bit (areEquivalent b a), bit (areEquivalent rA b), bit (areEquivalent a rB),
+                   bit (areEquivalent cA b), bit (areEquivalent a cB), bit (areEquivalent rA rB), bit (areEquivalent b rA)]
+    | _ => "bad-op"
+  | "acc" :: rest =>
+    match tyOf rest with
+    | some t => "g=" ++ bit (guardAccepted t) ++ " i=" ++ bit (invariantAccepted t)
+    | none => "bad-op"
+  | _ => "bad-op"
+
+partial def loop (h : IO.FS.Stream) (out : IO.FS.Stream) : IO Unit := do
+  let line ← h.getLine
+  if line.isEmpty then return ()
+  out.putStrLn (stepLine line)
+  loop h out
+
+def main : IO Unit := do
+  let out ← IO.getStdout
+  loop (← IO.getStdin) out
